@@ -24,6 +24,9 @@ Inductive status := Waiting | Fireable | Running | Skipped | Completed | Failed 
 Definition recovering (s : status) : bool :=
   match s with Rollback | Running | Fireable => true | _ => false end.
 
+(* NOTE: [status_of] answers Completed for a job that was never given a status; the real
+   DefaultScheduler.get_allocation raises WorkflowExecutionException for a job without an allocation.  Every job that reaches
+   _synchronize_workflows has been scheduled, so has one; the theorems are meant for such jobs (named assumption of C19). *)
 Definition statuses := list (string * status).
 Fixpoint status_of (st : statuses) (j : string) : status :=
   match st with
